@@ -217,7 +217,9 @@ BOUNDED = {
          "value for the PDS3 rule, every zone offset in 15/30-minute steps in every spelling x 5 dialect configurations; "
          "finite grids enumerated completely are marked exhaustive. Discharged alongside: T_time contracts of encode_time for the three "
          "dialect families (written fields and precision, sign*(HH*3600+MM*60) == utcoffset, refusal exactly when the dialect cannot "
-         "represent the value; counter-models are concrete time values replayed through the real encoder and decoder), T_dec decoder contracts and regex-language "
+         "represent the value; counter-models are concrete time values replayed through the real encoder and decoder), the decoder side "
+         "(PVLDecoder.decode_datetime: type by trial order, trailing Z => UTC, unmarked => default zone or naive; ODLDecoder offset == "
+         "sign*(HH h + MM min); PDSLabelDecoder: no offset branch, microsecond % 1000 == 0) and regex-language "
          "obligations over the grammar's strptime format tables, leap-second patterns and the ODL offset pattern (syntax included, "
          "families disjoint, leap-second language exact, offset split unique) for all strings.", "DESIGN.md §3 C14"),
  "C17": ("exploration", "All strings up to a length bound over a PVL-significant alphabet plus curated and random longer ones x 5 "
